@@ -125,3 +125,10 @@ flush_real = dict(
     bounded=dict(bound='5 arrangements x backend sleeping / polling x K = 0..4 (thorough: 0..12) statements; one OS schedule per case', form='b'),
     dropped=[], trusted=['one OS schedule per case: the contract units LG.flush_log / BW.process_event / BW.flush_sinks / BW.collect_sinks / SS.* carry the "for every interleaving" part'], min_obligations=1, timeout=1500)
 UNITS += [flush_real]
+remove_real = dict(
+    name='FE.remove_real', primary='C17', props={'C17'}, kind='L', funcs=[], enforce=None,
+    desc='remove_logger_blocking and re-creation under the same name with the REAL backend thread (forked child per case): on return everything logged through the logger is in its file and the logger is gone, the name is reusable with another sink, a shared sink keeps working',
+    native=dict(cpp='remove_real.cpp', file='include/quill/Frontend.h', function='Frontend::{remove_logger_blocking,create_or_get_logger,get_logger}, BackendWorker::_cleanup_invalidated_loggers, LoggerManager::cleanup_invalidated_loggers, SinkManager::cleanup_unused_sinks', defs_quick=['KMAX=4', 'CYCLES=3'], defs_thorough=['KMAX=10', 'CYCLES=6']),
+    bounded=dict(bound='2 sink arrangements x backend sleeping / polling x K = 0..4 (thorough: 0..10) statements x 3 (thorough: 6) cycles; one OS schedule per case', form='b'),
+    dropped=[], trusted=['one OS schedule per case: the contract units LM.* / SM.* / FE.remove_logger_blocking / BW.cleanup_loggers carry the "for every interleaving" part'], min_obligations=1, timeout=1500)
+UNITS += [remove_real]
